@@ -69,15 +69,21 @@ def transmit (own : UInt8) (s : Scanner) : Scanner × Option (Header × Bytes) :
   | (s', some a) => (s', some (diagRequestHeader (UInt8.ofNat a) own, []))
   | (s', none) => (s', none)
 
-/-- `receive_reply`.  A reply that does not parse as a diagnostics response produces no event and
-leaves the station bit as it is (a known peripheral stays known). -/
+/-- `receive_reply` (as of /repo commit c0f8a92).  A reply that does not parse as a diagnostics
+response produces no event for an unknown address; for a *known* peripheral it clears the station
+bit and the pending event becomes `PeripheralLost(address)` ("something answers at this address, but
+it is no longer a DP peripheral"). -/
 def receiveReply (s : Scanner) (addr : Nat) (t : Telegram) : Outcome Scanner :=
   match s.stations[addr]? with
   | none => .panic
   | some known =>
     match parseDiagResponse t with
     | .panic => .panic
-    | .ok none => .ok { s with done := true, pending := none }
+    | .ok none =>
+      if known then
+        .ok { s with done := true, pending := some (.lost addr), stations := s.stations.set addr false }
+      else
+        .ok { s with done := true, pending := none }
     | .ok (some d) =>
       let desc : DpDesc := { address := addr, ident := d.ident, master := d.master }
       if known then
